@@ -270,7 +270,7 @@ type cmsg struct {
 	kind string // gate | reqdone | alldone
 	call string
 	repo string
-	mu   *olareg.VerifMutex
+	mu   any
 	req  *parReq
 	rr   *httptest.ResponseRecorder
 	ans  string
@@ -282,8 +282,9 @@ type ctl struct {
 	permit   map[int]chan struct{}
 	pending  map[int]string
 	pendRepo map[int]string
-	pendMu   map[int]*olareg.VerifMutex
-	owner    map[*olareg.VerifMutex]int
+	pendMu   map[int]any
+	owner    map[any]int         // lock -> thread that holds it for writing
+	readers  map[any]map[int]int // lock -> threads that hold it for reading
 	inflight map[string]map[int]int
 	cur      int
 	curReq   map[int]*parReq
@@ -309,18 +310,30 @@ func (c *ctl) gate(tid int, call, repo string) {
 	<-ch
 }
 
-func (c *ctl) lockHook(ev string, m *olareg.VerifMutex) {
+func (c *ctl) lockHook(ev string, m any) {
 	tid := c.cur
 	if tid == 0 {
 		return
 	}
-	if ev == "lock" {
+	switch ev {
+	case "lock", "rlock":
+		call := "Lock"
+		if ev == "rlock" {
+			call = "RLock"
+		}
 		ch := c.permit[tid]
-		c.msg <- cmsg{tid: tid, kind: "gate", call: "Lock", mu: m}
+		c.msg <- cmsg{tid: tid, kind: "gate", call: call, mu: m}
 		<-ch
-		return
+	case "unlock":
+		delete(c.owner, m)
+	case "runlock":
+		if rm := c.readers[m]; rm != nil && rm[tid] > 0 {
+			rm[tid]--
+			if rm[tid] == 0 {
+				delete(rm, tid)
+			}
+		}
 	}
-	delete(c.owner, m)
 }
 
 func (c *ctl) isEnabled(t int) bool {
@@ -331,6 +344,8 @@ func (c *ctl) isEnabled(t int) bool {
 	case "":
 		return false
 	case "Lock":
+		return c.owner[c.pendMu[t]] == 0 && len(c.readers[c.pendMu[t]]) == 0
+	case "RLock":
 		return c.owner[c.pendMu[t]] == 0
 	case "GC":
 		for u, n := range c.inflight[c.pendRepo[t]] {
@@ -394,6 +409,11 @@ func (c *ctl) step(t int) {
 	switch call {
 	case "Lock":
 		c.owner[c.pendMu[t]] = t
+	case "RLock":
+		if c.readers[c.pendMu[t]] == nil {
+			c.readers[c.pendMu[t]] = map[int]int{}
+		}
+		c.readers[c.pendMu[t]][t]++
 	case "RepoGet":
 		if c.inflight[c.pendRepo[t]] == nil {
 			c.inflight[c.pendRepo[t]] = map[int]int{}
@@ -410,7 +430,7 @@ func (c *ctl) step(t int) {
 // runPar executes the threads under the schedule; returns false on a deadlock (threads left, none enabled)
 func (h *H) runPar(threads map[int][]*parReq, sched []int) *ctl {
 	c := &ctl{h: h, msg: make(chan cmsg), permit: map[int]chan struct{}{}, pending: map[int]string{}, pendRepo: map[int]string{},
-		pendMu: map[int]*olareg.VerifMutex{}, owner: map[*olareg.VerifMutex]int{}, inflight: map[string]map[int]int{},
+		pendMu: map[int]any{}, owner: map[any]int{}, readers: map[any]map[int]int{}, inflight: map[string]map[int]int{},
 		curReq: map[int]*parReq{}, finished: map[int]bool{}}
 	for t := range threads {
 		c.tids = append(c.tids, t)
